@@ -246,6 +246,9 @@ def _run_built(ctx: RunContext, built: dict, configs: list[dict], variables=None
 
             # (temporary directory names are random: keep them out of the trace)
             text = re.sub(r"/tmp/tmp[A-Za-z0-9_]+", "/tmp/<tmpdir>", f"{type(exc).__name__}: {exc}")
+            # (so are the simulator's run ids and object addresses that pydantic echoes from the input)
+            text = re.sub(r"'run': \d+", "'run': <id>", text)
+            text = re.sub(r"0x[0-9a-fA-F]{6,}", "0x<addr>", text)
             ctx.exits.append(("exception", st["index"], text))
             ctx.last_exception = exc
             if built["level"] > 0:
